@@ -105,9 +105,8 @@ Definition extract_entry (o : xopts) (out : path) (e : xentry) (f : fs) : fs * b
            dofs f <- replace_existing o f p;
            hard_link f (legacy_source p src) p);
     let f := apply_perm o e f p in
-    if o_keep_xattr o && N.eqb (e_kind e) 0 then
-      match e_xattrs e with [] => (f, true) | xs => set_xattrs f p xs end
-    else (f, true).
+    (* set_xattrs(&path, item.xattrs()): every entry kind, the last component is not followed *)
+    if o_keep_xattr o then lset_xattrs f p (e_xattrs e) else (f, true).
 
 (* run_extract_archive_reader: every entry that is not a hard link is attempted in archive order
    (a failure is reported at the end); hard links come last, only if nothing failed, and stop at the
